@@ -2,3 +2,11 @@ package binlogreplication
 
 // |TIME| < 2 minutes in quick (covers the seconds = 59 borrow and the minute carry)
 const verifBoundTimeMax = 2*60*1000000 - 1
+
+// JSON documents: containers of up to 2 members, one level of nesting, key lengths and string lengths from these
+// classes (the one- and two-byte length boundaries)
+const verifBoundJSONMembers = 2
+const verifBoundJSONDepth = 1
+
+var verifBoundJSONKeyLens = []int{1, 255, 256}
+var verifBoundJSONStrLens = []int{0, 127, 128}
